@@ -183,6 +183,8 @@ void BW_MidiSequencer::MidiTrackRow::sortEvents(bool *noteStates)
     EvtArr noteOffs;
     EvtArr controllers;
     EvtArr anyOther;
+    //! Positions in the row (file order) of the events kept in noteOffs and anyOther
+    std::vector<size_t> noteOffsPos, anyOtherPos;
 
     for(size_t i = 0; i < events.size(); i++)
     {
@@ -191,6 +193,7 @@ void BW_MidiSequencer::MidiTrackRow::sortEvents(bool *noteStates)
             if(noteOffs.capacity() == 0)
                 noteOffs.reserve(events.size());
             noteOffs.push_back(events[i]);
+            noteOffsPos.push_back(i);
         }
         else if(events[i].type == MidiEvent::T_SYSEX ||
                 events[i].type == MidiEvent::T_SYSEX2)
@@ -228,6 +231,7 @@ void BW_MidiSequencer::MidiTrackRow::sortEvents(bool *noteStates)
             if(anyOther.capacity() == 0)
                 anyOther.reserve(events.size());
             anyOther.push_back(events[i]);
+            anyOtherPos.push_back(i);
         }
     }
 
@@ -256,11 +260,23 @@ void BW_MidiSequencer::MidiTrackRow::sortEvents(bool *noteStates)
                         ((*j).data[0] == e.data[0])
                     )
                     {
+                        const size_t jPos = static_cast<size_t>(j - noteOffs.begin());
+                        // A note-off written BEFORE this note-on in the file does not end it:
+                        // it stays where it is (only a later one makes a zero-length note)
+                        if(noteOffsPos[jPos] < anyOtherPos[i])
+                        {
+                            if(wasOn)
+                                noteOffsOnSameNote++;
+                            j++;
+                            continue;
+                        }
                         // If note is already off OR more than one note-off on same row and same note
                         if(!wasOn || (noteOffsOnSameNote != 0))
                         {
                             anyOther.push_back(*j);
+                            anyOtherPos.push_back(noteOffsPos[jPos]);
                             j = noteOffs.erase(j);
+                            noteOffsPos.erase(noteOffsPos.begin() + static_cast<std::ptrdiff_t>(jPos));
                             markAsOn.erase(note_i);
                             continue;
                         }
